@@ -5,6 +5,7 @@ package main
 import (
 	"fmt"
 	"go/token"
+	"go/types"
 	"strings"
 
 	"golang.org/x/tools/go/ssa"
@@ -171,6 +172,20 @@ func runC08(c *Ctx, r *Report) {
 				continue
 			}
 			n += k
+			// the call lies on every path that hands out a message: a builder that returns a message it did not just
+			// build (a cached one) re-uses that message's id
+			allInstrs(fn, func(in ssa.Instruction) {
+				ret, isRet := in.(*ssa.Return)
+				if !isRet || len(ret.Results) == 0 || isNilConst(ret.Results[0]) {
+					return
+				}
+				if pt, isPtr := ret.Results[0].Type().(*types.Pointer); !isPtr || typeShort(pt.Elem()) != "netconf.message" {
+					return
+				}
+				if !ci.Block().Dominates(ret.Block()) {
+					okAll = false
+				}
+			})
 			// the call must not be in a loop, and must lie on every non-error path: require it to dominate a return that yields a message
 			for _, b := range fn.Blocks {
 				for _, p := range b.Preds {
